@@ -432,7 +432,7 @@ class Output(InputOutput):
             .verify(signature, digest)
 
     def is_signed_by(self, channel: 'Output', ledger=None):
-        return self.is_signature_valid(
+        return self.signable.signing_channel_hash == channel.claim_hash and self.is_signature_valid(
             self.signable.signature,
             self.get_signature_digest(ledger),
             channel.claim.channel.public_key_bytes
